@@ -739,6 +739,9 @@ impl Property for C04 {
         v.sort();
         v
     }
+    fn enumerated_runs(&self, tier: Tier) -> u64 {
+        grid_cells(tier) + SCALE_SWEEP + POW2_SWEEP + LEN_SWEEP
+    }
     fn exhaustive_note(&self, tier: Tier) -> Option<String> {
         Some(match tier {
             Tier::Quick => "grid: every (digit length 1..40, scale -40..60) pair once (pattern and sign rotate); per execution the sink-fault set is enumerated completely".into(),
